@@ -358,6 +358,56 @@ def run_login_writers(ctx):
     return n
 
 
+def run_expect_gate(ctx):
+    """frame.expect-gate (C02, C04): the body helpers behind the typed world expect_* functions decode M exactly when the opcode
+    of the frame equals M::OPCODE, and otherwise return an Opcode error carrying the opcode that was received"""
+    from .. import opcodes
+    st = state()
+    F = st["g"].f("wow_world_messages")
+    n = 0
+    for exp in ("vanilla", "tbc", "wrath"):
+        for side in ("server", "client"):
+            name = f"read_{side}_body"
+            fn = F.fn(f"crate::helper::{exp}::expected::{name}")
+            if fn is None:
+                ctx.violate("frame.expect-gate", f"anchor|{exp}|{name}", f"helper::{exp}::expected::{name} not found (anchor disappeared)")
+                continue
+            n += 1
+            key = f"{exp}|{name}"
+            body = fn["hir"]
+            prm = [q[1] for q in fn["params"] if H.tag(q) == "bind"]
+            if "opcode" not in prm:
+                ctx.violate("frame.expect-gate", f"{key}|param", f"{exp} {name}: no parameter called opcode (parameters {prm}) — review", fn["file"], fn["line"])
+                continue
+            rebinds = [x for x in H.walk(body) if isinstance(x, list) and x and x[0] == "let" and any(H.tag(q) == "bind" and q[1] == "opcode" for q in H.walk(x[1]))]
+            if rebinds:
+                ctx.violate("frame.expect-gate", f"{key}|rebound", f"{exp} {name}: the opcode parameter is re-bound before it is compared — review", fn["file"], fn["line"])
+            ifs = [x for x in H.walk(body) if H.tag(x) == "if"]
+            gates = []
+            for x in ifs:
+                c = H.strip(x[1])
+                if H.tag(c) == "bin" and c[2] == "Eq" and {H.local_name(c[4]) or H.path_of(c[4]), H.local_name(c[5]) or H.path_of(c[5])} == {"opcode", "crate::traits::Message::OPCODE"}:
+                    gates.append(x)
+            if len(gates) != 1 or len(ifs) != 1:
+                ctx.violate("frame.expect-gate", f"{key}|gate", f"{exp} {name}: the decode is not guarded by exactly one test `opcode == M::OPCODE` (conditions found: {[H.short(x[1], maxlen=60) for x in ifs]}): "
+                            "a frame carrying another opcode is decoded as M", fn["file"], fn["line"])
+                continue
+            g_ = gates[0]
+            calls_all = [x for x in H.walk(body) if H.tag(x) == "call" and (H.call_path(x) or "").endswith("::read_body")]
+            calls_then = [x for x in H.walk(g_[2]) if H.tag(x) == "call" and H.call_path(x) == "crate::traits::Message::read_body" and H.call_gargs(x)[:1] == ["M"]]
+            if len(calls_all) != 1 or len(calls_then) != 1:
+                ctx.violate("frame.expect-gate", f"{key}|call", f"{exp} {name}: M::read_body is not called exactly once, inside the `opcode == M::OPCODE` branch", fn["file"], fn["line"])
+            els = g_[3]
+            eb = H.strip(els) if els is not None else None
+            if eb is not None and H.tag(eb) == "block" and not eb[1] and eb[2] is not None:
+                eb = eb[2]
+            if eb is None or not opcodes.is_err_opcode("wow_world_messages", eb, {"opcode"}):
+                ctx.violate("frame.expect-gate", f"{key}|else", f"{exp} {name}: when the opcode differs the helper does not return ExpectedOpcodeError::Opcode carrying the opcode that was received: "
+                            f"{H.short(els, maxlen=140) if els is not None else 'no else branch'}", fn["file"], fn["line"])
+    ctx.rule("frame.expect-gate", n, floor=6, note="read_server_body / read_client_body of three expansions: gate on M::OPCODE, one decode call in the gated branch, offending opcode reported otherwise")
+    return n
+
+
 # ----------------------------------------------------------------------------------------------
 # hand-written header structs: byte placement (C02-D2(e), reader side) by abstract interpretation
 # ----------------------------------------------------------------------------------------------
